@@ -452,6 +452,10 @@ def replay(unit, obl):
 
 M_ = "tdgl.finite_volume.operators"
 MUTANTS = [
+    dict(name="retried attempt uses a Laplacian without pinned rows", units=["adaptive_euler_step[every return path]"],
+         edits=[("tdgl.solver.solver", "            kwargs[\"dt\"] = dt = dt * options.adaptive_time_step_multiplier\n            result = self.solve_for_psi_squared(**kwargs)", "            kwargs[\"dt\"] = dt = dt * options.adaptive_time_step_multiplier\n            kwargs[\"psi_laplacian\"] = self.operators.mu_laplacian\n            result = self.solve_for_psi_squared(**kwargs)")]),
+    dict(name="answer of a retried attempt is halved", units=["adaptive_euler_step[every return path]"],
+         edits=[("tdgl.solver.solver", "        psi, new_sq_psi = result\n        return psi, new_sq_psi, dt", "        psi, new_sq_psi = result\n        if retries:\n            psi = psi * 0.5\n        return psi, new_sq_psi, dt")]),
     dict(name="isin invert dropped", edits=[(M_, "free_rows = np.isin(rows, fixed_sites, invert=True)", "free_rows = np.isin(rows, fixed_sites)")], units=["build_laplacian[pinned rows]"]),
     dict(name="pin eigenvalue 0", edits=[(M_, "[values, fixed_sites_eigenvalues * np.ones(len(fixed_sites))]", "[values, 0 * np.ones(len(fixed_sites))]")], units=["build_laplacian[pinned rows]"]),
     dict(name="refresh ignores free_rows", edits=[(M_, "            if self.fix_psi:\n                free_rows = self.laplacian_free_rows[: len(self.laplacian_link_rows)]", "            if False:\n                free_rows = self.laplacian_free_rows[: len(self.laplacian_link_rows)]")], units=["set_link_exponents[fix_psi=True]"]),
